@@ -265,3 +265,49 @@ func VH_C08_timer_tick_keeps_unacknowledged_frames() {
 	})
 	r.send()
 }
+
+// A long outage: ten retransmission-timer ticks in a row without any
+// acknowledgement. Afterwards the sender must still retransmit at least one
+// frame per tick (a window that has collapsed to zero can never recover, so
+// nothing written would ever become readable again).
+//
+//verif:prop C08
+//verif:replay none
+//verif:bounds ten consecutive timer ticks of Reliable.send with one unacknowledged frame, starting from each congestion state (slow start, AIMD, fast recovery) with the default window
+//verif:cover ticked
+//verif:unwind 40
+//verif:timeout 600
+func VH_C08_outage_never_collapses_the_retransmission_window() {
+	log := logrus.NewEntry(logrus.New())
+	r := &Reliable{recvWindow: newReceiver(log), closed: make(chan struct{}), sendDone: make(chan struct{}), sendQueue: make(chan []byte, 64), prioritySendQueue: make(chan []byte, 64), log: log}
+	r.sender = newSender(log)
+	r.sender.closed.Store(false)
+	r.sender.senderWindow.state = controlState(verifPick("ccstate", int(SlowStart), int(AIMD), int(FastRecovery)))
+	r.sender.frames = append(r.sender.frames, struct {
+		*frame
+		time.Time
+	}{&frame{frameNo: 1, dataLength: 1, data: []byte{1}}, time.Time{}})
+	tick := make(chan time.Time, 10)
+	for i := 0; i < 10; i++ {
+		tick <- time.Time{}
+	}
+	r.sender.RetransmitTicker = &time.Ticker{C: tick}
+	r.tubeState = initiated
+	verifOnBlock(func() {
+		verifCover("ticked")
+		verifAssert(len(r.sender.frames) == 1, "C08: an outage discards no unacknowledged frame")
+		verifAssert(r.sender.framesToSend(true, 0) >= 1, "C08: after an outage of any length the sender still retransmits on the next timer tick")
+		verifAssert(r.sender.senderWindow.windowSize >= 1, "C08: the send window never collapses to zero")
+	})
+	r.send()
+}
+
+// Acknowledgement handling under C08: frames held stay the unacknowledged
+// suffix, and progress resets the duplicate-acknowledgement counter.
+//
+//verif:prop C08
+//verif:bounds as VH_C11_recvAck_any_number
+//verif:cover acked-some;acked-none
+//verif:unwind 40
+//verif:timeout 600
+func VH_C08_acknowledgements_release_exactly_the_acknowledged_frames() { c11RecvAck(2) }
